@@ -152,12 +152,23 @@ Theorem C06_marks_atom_ring_sizes_NoDup : forall sssr n, NoDup (atom_ring_sizes 
 Proof. exact atom_ring_sizes_NoDup. Qed.
 Print Assumptions C06_marks_atom_ring_sizes_NoDup.
 
-(* bond._in_ring  <->  both ends lie in one common ring of the list (this is what the code computes; for a chordless
-   ring it is "the bond is a bond of that ring"; a special-order chord of a ring is also marked - see the manifest) *)
-Theorem C06_marks_bond_in_ring : forall sssr n m,
-  bond_in_ring sssr n m = true <-> exists r, In r sssr /\ In n r /\ In m r.
-Proof. exact bond_in_ring_spec. Qed.
+(* bond._in_ring  <->  the bond is not special (order 8) and both ends lie in one common ring of the list (this is what
+   the code computes; for a chordless ring it is "the bond is a bond of that ring") *)
+Theorem C06_marks_bond_in_ring : forall sssr n mb,
+  bond_label sssr n mb = true <-> b_ord (snd mb) <> 8 /\ exists r, In r sssr /\ In n r /\ In (fst mb) r.
+Proof. exact bond_label_spec. Qed.
 Print Assumptions C06_marks_bond_in_ring.
+
+(* both directions of one bond get the same mark *)
+Theorem C06_marks_bond_symmetric : forall sssr n m b, bond_label sssr n (m, b) = bond_label sssr m (n, b).
+Proof. exact bond_label_sym. Qed.
+Print Assumptions C06_marks_bond_symmetric.
+
+(* the list of bond marks calc_labels writes holds exactly one such mark per directed bond of the molecule *)
+Theorem C06_marks_ring_labels_bonds : forall g sssr n m v, In (n, m, v) (snd (ring_labels g sssr)) <->
+  exists l b, In (n, l) (m_adj g) /\ In (m, b) l /\ v = bond_label sssr n (m, b).
+Proof. exact ring_labels_bonds_spec. Qed.
+Print Assumptions C06_marks_ring_labels_bonds.
 
 (* atoms_rings[n] lists exactly the rings containing n, and only atoms of some ring are keys *)
 Theorem C06_atoms_rings_spec : forall sssr n r, In r (lookup (atoms_rings sssr) n) <-> In r sssr /\ In n r.
